@@ -24,6 +24,9 @@ def _replay_in_env(fn, rec):
     if env == "debug-logging":
         with target.debug_logging():
             return fn(rec)
+    if isinstance(env, str) and env.startswith("style:"):
+        with target.call_style(env[6:]):
+            return fn(rec)
     return fn(rec)
 
 
